@@ -96,7 +96,7 @@ CHECKS = {
                 "send / resume k / skip, size prefix, payload, data) and the upload exchange per item (folder create, skip complete, "
                 "resume partial at its length, receive + publish; a connection that dies inside a file). Theorems (Props/C10.v): "
                 "count_matches_headers, headers_are_the_items (paths relative to the folder, kinds, in order), "
-                "items_are_visible_entries_partial, action_respected (the size prefix counts exactly the bytes that follow; a resumed "
+                "items_are_visible_entries + every_visible_entry_is_an_item + no_item_twice (the items are exactly the visible entries, each once), action_respected (the size prefix counts exactly the bytes that follow; a resumed "
                 "file continues at the offset), upload_skips_complete, upload_resumes_partial + resumed_prefix_gives_whole_file, "
                 "upload_writes_new_file, upload_creates_folder, cut_never_publishes; a computed upload->download round trip. "
                 "Correspondence: a reference folder-transfer client against the real handleFileTransfer over net.Pipe on generated trees "
@@ -105,8 +105,7 @@ CHECKS = {
                 "partial file, uploads cut inside a (resumed or fresh) file, and the round trip; every header, prefix, data fork and "
                 "the resulting tree are compared with the model.",
         "note": "Two defects found and repaired (b15acf8 resumed file sent from byte 0 in folder downloads; a0eef30 partially received "
-                "resumed file published in folder uploads). PARTIAL: exactly-once / depth-first order of the walk is shown by the "
-                "correspondence and the computed example, not by a theorem. ASCII names, no aliases, no stored forks. No axioms.",
+                "resumed file published in folder uploads). ASCII names, no aliases, no stored forks. No axioms.",
         "technique": "Coq proof over an item-by-item folder transfer model + reference-client differential correspondence on the real transfer handlers",
     },
     "C11": {
@@ -118,13 +117,12 @@ CHECKS = {
                 "listed_name_round_trips (the listing's Mac Roman encoder inverts ReadPath's decoder on EVERY byte string), "
                 "listed_entry_is_addressable, complete_name_listed_unchanged, partial_listed_under_final_name, list_exact, "
                 "ignored_entries_not_listed, sizes_agree (list row = get-info = download reply = bytes on disk for a file without "
-                "resource fork), delete_removes_group + delete_changes_nothing_else, mkdir_never_replaces, move_plain_file_partial. "
+                "resource fork), delete_removes_group + delete_changes_nothing_else, mkdir_never_replaces, move_carries_group (a file moves or is renamed WITH its partial data, resource fork and info fork; the old names are free; nothing else changes), move_plain_file. "
                 "Correspondence: 10-21 requests per history through the real handlers on a real tree (folders, forks, partial uploads, "
                 "names with .incomplete in the middle, Mac Roman high bytes, dot/@ files, aliases incl. dangling and self-referential), "
                 "after EVERY step the whole directory tree (or the parsed reply) is compared with the model.",
         "note": "Two defects found and repaired: .incomplete stripped anywhere in a name (bda93bc), an unresolvable alias made its folder "
-                "unlistable (3c057cb). PARTIAL: the four-file group of rename/move is a theorem only for files without side files; with "
-                "side files it is established by the correspondence. Dates and folder inode sizes are not modelled. No axioms.",
+                "unlistable (3c057cb). Dates and folder inode sizes are not modelled. No axioms.",
         "technique": "Coq proof over a reference namespace model + per-step whole-tree differential correspondence on the real file handlers",
     },
     "C19": {
